@@ -14,7 +14,8 @@ FUNCTIONS = ["MolGraph.relabel_atoms", "StereoMolGraph.relabel_atoms", "StereoCo
              "follow-up: every public mutator / query on the relabelled graph"]
 IMG = (0, 1, 2, 5, -3, 1 << 40)
 BOUNDS = {"quick": "graphs: solver-enumerated family over universe {0,1,2} incl. isolated atoms (C09 quick restrictions); mappings: each id unmapped or "
-                   f"mapped into {IMG}, identity-extended map injective; copy and in-place; inverse; follow-up: one argument tuple of every op kind",
+                   f"mapped into {IMG}, identity-extended map injective; copy and in-place; inverse; follow-up: one argument tuple of every op kind; "
+                   "templates twocentre, ring4, sn2, dbond (several descriptors / stereo changes per graph) x neighbour transpositions, cyclic shift, pair swaps, reversal, partial map onto fresh identifiers",
           "thorough": "all decorations; universe {0,1,2,3} for MG/CRG; all follow-up argument tuples of the renamed universe"}
 OUTSIDE = "non-injective mappings (undefined); universes > 4 ids"
 ASSUMPTIONS = C09.ASSUMPTIONS
@@ -273,11 +274,11 @@ def plan(tier, seed):
             if cname == "SCRG":
                 pre += ["ds in (0, 8)", "cs in (0, 7)", "role == 0 or (ds == 0 and cs == 0)", "p0 and p1", "m2 in (0, 2)"]
         if k == 4:
-            pre += ["el == 0", "m3 in (0, 1, 6)", "m2 in (0, 1, 5)", "m1 in (0, 3, 4)", "m0 in (0, 2, 6)", "not xa"]
+            pre += ["el == 0", "m3 in (0, 6)", "m2 in (0, 5)", "m1 in (0, 3, 4)", "m0 in (0, 2, 6)", "not xa"]
             if "role" in params:
                 pre += ["role in (0, 1, 3)"]
         elif tier == "thorough":
-            pre += ["m0 in (0, 2, 4, 6)", "m1 in (0, 1, 3, 5)", "m2 in (0, 1, 2, 6)", "el < 2", "not xa"]
+            pre += ["m0 in (0, 2, 6)", "m1 in (0, 1, 5)", "m2 in (0, 1, 6)", "el == 0", "not xa"]
             if u.name.endswith("SCRG"):
                 pre += ["ds in (0, 1, 8, 9, 10)", "cs in (0, 3, 5, 7)", "ds == 0 or cs == 0 or (ds == 8 and cs == 7)", "role in (0, 3, 6) or (ds == 0 and cs == 0)", "m0 in (0, 2, 6)"]
         units.append(Sel(name="relabel_" + u.name[4:], func=f"vp.props.C11:{f}", params=params, pre=pre, shard_by=u.shard_by,
